@@ -173,6 +173,130 @@ fn c25_announcer_new_errors() {
     kani::cover!(true);
 }
 
+// ------------------------------------------------------------------------------------------
+// Fetcher
+
+use crate::node::sync::fetch::{Candidate, Fetcher, FetcherConfig, FetcherResult};
+use crate::node::{Address, FetchResult};
+
+/// Reference target of the fetcher (its module documentation): reached when every preferred seed
+/// has been fetched from successfully (if there are preferred seeds), or when the number of nodes
+/// fetched from successfully reaches the replication bound (upper bound of a range, else the
+/// lower bound); the bound is clamped to the number of candidates at construction.
+struct FModel {
+    local: u8,
+    seeds: u8,
+    ok: u8,     // nodes with a successful result
+    done: u8,   // nodes with any result
+    lower: usize,
+    upper: Option<usize>,
+}
+impl FModel {
+    fn reached(&self) -> bool {
+        (self.seeds != 0 && self.seeds & !self.ok == 0) || (self.ok.count_ones() as usize) >= self.upper.unwrap_or(self.lower)
+    }
+}
+
+fn any_fetcher() -> Option<(Fetcher, FModel)> {
+    let local: Id = kani::any();
+    let seeds: u8 = kani::any();
+    kani::assume(seeds < 16);
+    let replicas = any_replicas();
+    let mut cfg = FetcherConfig::public(BTreeSet::from_bits(seeds), replicas, local);
+    // one extra candidate outside the seed set (possibly the local node, possibly a seed again)
+    let extra: Id = kani::any();
+    let with_extra: bool = kani::any();
+    if with_extra {
+        cfg = cfg.with_candidates([Candidate::new(extra)]);
+    }
+    let l = bit(local);
+    let ncand = (seeds & !l).count_ones() as usize + (with_extra && extra != local) as usize;
+    match Fetcher::new(cfg) {
+        Ok(f) => {
+            assert!(ncand > 0, "C25: fetcher constructed without candidates");
+            let r = replicas.min(ncand);
+            // NB: `seeds` keeps the local node if it was passed in (Fetcher::new does not remove it)
+            Some((f, FModel { local: l, seeds, ok: 0, done: 0, lower: r.lower_bound(), upper: r.upper_bound() }))
+        }
+        Err(e) => {
+            std::mem::forget(e);
+            None
+        }
+    }
+}
+
+/// Drive the fetcher the documented way for up to `K` rounds: take the next candidate, mark it
+/// ready, take it as the next fetch, report a symbolic result.  The fetcher never hands out the
+/// local node or a node that already has a result, and reports success exactly when the reference
+/// target is reached; `finish()` agrees.
+fn fetcher_rounds<const K: usize>() {
+    let Some((mut f, mut m)) = any_fetcher() else { return };
+    let mut i = 0;
+    while i < K {
+        let Some(n) = f.next_node() else { break };
+        assert!(bit(n) != m.local, "C25: the fetcher handed out the local node");
+        assert!(bit(n) & m.done == 0, "C25: the fetcher handed out a node that already has a result");
+        f.ready_to_fetch(n, Address);
+        match f.next_fetch() {
+            Some((x, _)) => assert!(x == n, "C25: next_fetch returned a different node than the one made ready"),
+            None => panic!("C25: a node made ready was not handed out for fetching"),
+        }
+        let success: bool = kani::any();
+        m.done |= bit(n);
+        let flow = if success {
+            m.ok |= bit(n);
+            f.fetch_complete(n, FetchResult::Success)
+        } else {
+            f.fetch_complete(n, FetchResult::Failed { reason: String::new() })
+        };
+        match flow {
+            ControlFlow::Break(s) => {
+                assert!(m.reached(), "C25: fetcher reports success although the target is not reached");
+                std::mem::forget(s);
+                kani::cover!(true);
+                std::mem::forget(f);
+                return;
+            }
+            ControlFlow::Continue(p) => {
+                assert!(!m.reached(), "C25: target reached but the fetcher does not report success");
+                assert!(p.succeeded() == m.ok.count_ones() as usize, "C25: progress counts something other than the successful nodes");
+                assert!(p.failed() == (m.done & !m.ok).count_ones() as usize);
+            }
+        }
+        i += 1;
+    }
+    match f.finish() {
+        FetcherResult::TargetReached(s) => {
+            std::mem::forget(s);
+            panic!("C25: finish reports success although the target is not reached")
+        }
+        FetcherResult::TargetError(t) => {
+            assert!(!m.reached());
+            assert!(t.missed_nodes().bits == m.seeds & !m.ok, "C25: missed nodes differ from the preferred seeds without a successful fetch");
+            std::mem::forget(t);
+        }
+    }
+    kani::cover!(true);
+}
+
+#[kani::proof]
+#[kani::unwind(7)]
+fn c25_fetcher_one_round() {
+    fetcher_rounds::<1>()
+}
+
+#[kani::proof]
+#[kani::unwind(7)]
+fn c25_fetcher_two_rounds() {
+    fetcher_rounds::<2>()
+}
+
+#[kani::proof]
+#[kani::unwind(7)]
+fn c25_fetcher_three_rounds() {
+    fetcher_rounds::<3>()
+}
+
 #[cfg(test)]
 mod replay {
     use super::*;
